@@ -42,11 +42,18 @@ def main():
     patch = os.path.abspath(os.path.join(src, "patch.diff"))
     demo = os.path.abspath(os.path.join(src, "demo.rs"))
     wt = "/tmp/seedchk_%s" % sid
-    sh("git -C /repo worktree remove --force %s" % wt)
-    rc, out = sh("git -C /repo worktree add -q --detach %s HEAD" % wt)
-    assert rc == 0, out
     result = {"confirmed": False}
+    if "--no-confirm" in sys.argv:
+        prev = json.load(open(os.path.join(ROOT, "seeded", sid, "meta.json")))
+        result = prev["confirmation"]
+        wt = None
+    else:
+        sh("git -C /repo worktree remove --force %s" % wt)
+        rc, out = sh("git -C /repo worktree add -q --detach %s HEAD" % wt)
+        assert rc == 0, out
     try:
+        if wt is None:
+            raise StopIteration
         shutil.copy(demo, os.path.join(wt, "tests", "demo.rs"))
         rc, out = sh("cargo test --offline -q --test demo 2>&1 | tail -15", cwd=wt)
         result["demo_on_clean_tree"] = "passes" if "test result: ok" in out else "FAILS: " + out[-500:]
@@ -61,9 +68,12 @@ def main():
         rc, out = sh("timeout 600 cargo test --offline -q --test demo 2>&1 | tail -15", cwd=wt)
         result["demo_with_patch"] = "fails" if ("test result: ok" not in out) else "PASSES (not a demonstration)"
         result["confirmed"] = (result["demo_on_clean_tree"] == "passes" and result["patch_applies"] and result["existing_tests_with_patch"] == "pass" and result["demo_with_patch"] == "fails")
+    except StopIteration:
+        pass
     finally:
-        sh("git -C /repo worktree remove --force %s" % wt)
-        sh("rm -rf %s" % wt)
+        if wt is not None:
+            sh("git -C /repo worktree remove --force %s" % wt)
+            sh("rm -rf %s" % wt)
     checks = {}
     if result.get("patch_applies"):
         rc, out = sh("git -C /repo status --porcelain")
